@@ -165,6 +165,16 @@ def call_wsgi(app, environ, inp=None, events=None, abort_after=None, validate=Fa
             raise
         res.exc = e
         ev.add('escaped', res.exc_stage, type(e).__name__)
+        if res.exc_stage == 'iterate' and it is not None and hasattr(it, 'close'):
+            # PEP 3333: close() is called "whether the request completed normally, or terminated early due to an
+            # application error during iteration"
+            try:
+                ev.add('close_call')
+                it.close()
+                ev.add('close_returned')
+                res.closed = True
+            except Exception as e2:
+                ev.add('escaped', 'close', type(e2).__name__)
     ev.add('handed_over')
     return res
 
